@@ -16,7 +16,8 @@ RULE = (
     'Series of 2-12 samples with strictly increasing abscissae (small '
     'integers, dyadic floats, UNIX-epoch magnitudes) and rising / falling / '
     'flat / non-monotone ordinates. Lattice regime: ordinates are multiples '
-    'of 1/8 and the step is one of 1, 0.5, 0.25, 2, 2.5, 5, so the exact '
+    'of 1/8 and the step is any multiple of 1/8 up to 100 (1, 0.5, 0.25, 2, '
+    '2.5, 5, 3, 7, 49, 75, 77, 93, 99 over-sampled), so the exact '
     'Fraction model decides the reported level sequence with equality. Free '
     'regime: decimal steps (0.1, 0.2, 0.3, 0.7, 1/3) with samples placed on, '
     'one ulp below and one ulp above k*step; a sample whose exact quotient '
@@ -39,7 +40,11 @@ EPS = 2.0 ** -52
 
 @st.composite
 def lattice_cases(draw):
-    h = draw(st.sampled_from(LATTICE_STEPS))
+    h = draw(st.one_of(
+        st.sampled_from(LATTICE_STEPS),
+        st.sampled_from([3.0, 7.0, 49.0, 75.0, 77.0, 93.0, 99.0, 0.375,
+                         12.25, 9.375]),
+        st.integers(1, 800).map(lambda m: m / 8.0)))
     n = draw(st.integers(2, 12))
     x0 = draw(st.sampled_from([0, 0, 17, 1400000000, 1388534400, -3600]))
     kind = draw(st.sampled_from(['int', 'int', 'dyadic']))
@@ -49,11 +54,11 @@ def lattice_cases(draw):
     x = [float(x0)]
     for d in dxs:
         x.append(x[-1] + (d if kind == 'int' else d / 8.0))
-    span = draw(st.sampled_from([8, 24, 80, 240]))
+    unit = int(round(h * 8))  # lattice units per level (h*8 is an integer)
+    span = draw(st.sampled_from([8, 24, 80, 240])) * max(1, unit // 8)
     # increments from a small alphabet so flats / on-level samples are common
     y0 = draw(st.integers(-span, span))
     on_level = draw(st.booleans())
-    unit = int(round(h * 8))  # lattice units per level (h*8 is an integer)
     if on_level:
         y0 = (y0 // max(unit, 1)) * max(unit, 1)
     incs = draw(st.lists(st.one_of(
